@@ -426,10 +426,31 @@ func (w *World) noiseInto(f *Node) bool {
 // C16: cancellation of the focus node at this step.
 
 func (w *World) cancelFocus(f *Node) {
-	// a main loop parked in the middle of an iteration goes on to a select of the library (forward to the worker or
-	// observe cancellation): with the cancellation already there that select has two ready cases and Go picks at
-	// random. The main loop therefore comes to rest at its own select before cancellation strikes.
-	w.forceReleaseMain(f)
+	// a main loop parked in the middle of an iteration, with an election trigger or a sync in hand, goes on to a select
+	// of the library (forward to the worker or observe cancellation): with the cancellation already there that select
+	// has two ready cases and Go picks at random. Such a main loop comes to rest at its own select before cancellation
+	// strikes. A main loop that is merely busy (parked with nothing in hand) stays busy: consumer threads deliver
+	// (undecodable) messages meanwhile - calls in flight at the moment of cancellation - and every one of them must
+	// return.
+	var inflight chan int
+	nInflight := 0
+	if g := f.mainParked; g != nil && !g.midEvent && len(f.pendingSyncs) == 0 {
+		nInflight = 1 + w.ch.Pick("inflight-calls", 3)
+		inflight = make(chan int, nInflight)
+		lh, ctx := f.lh, f.ctx
+		for i := 0; i < nInflight; i++ {
+			i := i
+			go func() {
+				lh.HandleConsensusMessage(ctx, &interfaces.ConsensusRawMessage{Content: []byte{9, 9, byte(i)}})
+				inflight <- i
+			}()
+		}
+		simWait()
+		w.probe("cancel-with-api-calls-in-flight")
+		w.ev("%d HandleConsensusMessage calls in flight (main loop busy)", nInflight)
+	} else {
+		w.forceReleaseMain(f)
+	}
 	w.action("cancel")
 	w.stats.Fault("cancel")
 	w.probe("nontrivial")
@@ -509,6 +530,10 @@ func (w *World) cancelFocus(f *Node) {
 	case <-done:
 	default:
 		w.violate("C16", "wait-until-shutdown-blocked", "WaitUntilShutdown of n%d has not returned after cancellation although every SPI call was released (gates=%d)", f.idx, len(f.gates))
+		return
+	}
+	if nInflight > 0 && len(inflight) != nInflight {
+		w.violate("C16", "api-call-stranded-by-cancel", "%d of %d HandleConsensusMessage calls that were in flight when n%d was cancelled have not returned although WaitUntilShutdown has", nInflight-len(inflight), nInflight, f.idx)
 		return
 	}
 	// drop what is in flight to it
@@ -764,8 +789,10 @@ func (w *World) fireAny(e *pendingEvent) {
 		w.action("timer")
 		w.onRealTimerDue(n)
 		n.realTrig.seen = true // before the clock moves: the firing re-arms the timer for the next view
+		w.stimNode = n
 		w.advanceTo(e.at)
 		w.quiesce()
+		w.stimNode = nil
 		return
 	}
 	w.action("timer")
